@@ -270,8 +270,17 @@ class ParseRunner:
             if culprit is None:
                 res.count("backstop_spurious")
                 label = labels.get(0, "?")
-                if label.startswith("RecursionError") or label.startswith("hang:"):
-                    res.count("backstop_spurious_case_needs_attention:" + label)
+                if label.startswith("hang:"):
+                    # finished in the child too, but again only after > PARSE_BACKSTOP_S of CPU (or over the
+                    # step budget): confirmed by two independent executions
+                    viol = ({"clause": "parse-terminates", "phase": "parse", "family": family, "mode": mode,
+                             "how": "slow-twice(worker and isolated child)"},
+                            f"parse of {src[:120]!r} in {mode} exceeded {PARSE_BACKSTOP_S}s of CPU in the worker and again "
+                            f"alone in a forked child: {label}")
+                elif label.startswith("RecursionError"):
+                    viol = ({"clause": "parse-within-stack", "phase": "parse", "family": family, "mode": mode,
+                             "exc": "RecursionError", "surfaced_as": label},
+                            f"parse of {src[:120]!r} in {mode} exhausted the Python stack ({label}, isolated child)")
             else:
                 label = "hang:cpu-limit"
                 viol = ({"clause": "parse-terminates", "phase": "parse", "family": family, "mode": mode,
